@@ -36,7 +36,7 @@ fn num(r: &mut Rng, cls: &str, lo: f64, hi: f64, grid: f64) -> Num {
             let v = (v * 1e4).round() / 1e4;
             Num { text: format!("{}", v), v: (v * 1e4).round() as i64 }
         }
-        _ => Num { text: pick(r, &["abc", "", "12,5", "1e", "--3", "north"]).to_string(), v: 0 },
+        _ => Num { text: pick(r, &["abc", "", "12,5", "1e", "--3", "north", "nan", "NaN", "inf", "-inf", "infinity", "-NaN"]).to_string(), v: 0 },
     }
 }
 
@@ -92,6 +92,7 @@ pub fn gen(args: &Args) {
         let (lat_c, lon_c, gmt_c, elev_c, dates_c, input_c) = (g(0), g(1), g(2), g(3), g(4), g(5));
         let (has_o, has_p) = (s[6].as_bool().unwrap(), s[7].as_bool().unwrap());
         let pred = g(8);
+        let pre = s.get(9).and_then(|v| v.as_bool()).unwrap_or(false);
         let lat = num(&mut r, &lat_c, -90., 90., 0.0001);
         let lon = num(&mut r, &lon_c, -180., 180., 0.0001);
         let gmt = num(&mut r, &gmt_c, -12., 12., 0.5);
@@ -169,6 +170,26 @@ pub fn gen(args: &Args) {
             let dr = DateRange::from(sd.parse::<NaiveDate>().unwrap()..=ed.parse::<NaiveDate>().unwrap());
             expect = Some((Params::new(METHODS[meth]), loc, dr));
         }
+        // pre-existing files at the -o / -p paths: written by an earlier, real run of the tool with a
+        // longer range and longer coordinate literals (so they are longer than anything this run writes)
+        let mut old_out: Vec<u8> = Vec::new();
+        let mut old_par: Vec<u8> = Vec::new();
+        if pre {
+            let pstart = date_of_dn(r.range(dn_of(ymd(1700, 1, 1)), dn_of(ymd(2300, 1, 1))));
+            let pargs = vec![
+                "--latitude=-33.86785123".to_string(),
+                "--longitude=151.20732456".to_string(),
+                "--gmt=10".to_string(),
+                "--elevation=19.25".to_string(),
+                format!("--start-date={}", pstart),
+                format!("--end-date={}", pstart + chrono::Duration::days(420)),
+                format!("--output-file-path={}", out_path),
+                format!("--params-file-path={}", par_path),
+            ];
+            let _ = Command::new(&bin).args(&pargs).current_dir(&wd).output();
+            old_out = std::fs::read(&out_path).unwrap_or_default();
+            old_par = std::fs::read(&par_path).unwrap_or_default();
+        }
         let res = Command::new(&bin).args(&argv).current_dir(&wd).output();
         let (exit, stdout) = match res {
             Ok(o) => (o.status.code().unwrap_or(-9), String::from_utf8_lossy(&o.stdout).to_string()),
@@ -197,8 +218,37 @@ pub fn gen(args: &Args) {
                 eq_lib = listing_ok(&stdout, &table);
             }
         }
-        w.emit(json!({"ev": "cli", "sc": {"lat": lat_c, "lon": lon_c, "gmt": gmt_c, "elev": elev_c, "dates": dates_c,
-                "input": input_c, "o": has_o, "p": has_p},
+        // state of the two paths afterwards: none | old (untouched) | fresh (exactly this run's data) | other
+        let out_state = match std::fs::read(&out_path) {
+            Err(_) => "none",
+            Ok(b) if pre && b == old_out => "old",
+            Ok(b) => {
+                let ok = match (&expect, serde_json::from_slice::<Table>(&b)) {
+                    (Some((params, loc, dr)), Ok(t)) => t == prayer_times_dt_rng(params, *loc, dr),
+                    _ => false,
+                };
+                if ok { "fresh" } else { "other" }
+            }
+        };
+        let params_state = match std::fs::read(&par_path) {
+            Err(_) => "none",
+            Ok(b) if pre && b == old_par => "old",
+            Ok(b) => {
+                // fresh = a well-formed document that, fed back with -i, reproduces this run's result
+                let chk = format!("{}/chk.json", wd);
+                let ok = serde_json::from_slice::<Value>(&b).is_ok()
+                    && Command::new(&bin).args([format!("--input-file-path={}", par_path), format!("--output-file-path={}", chk)])
+                        .current_dir(&wd).output().map(|o| o.status.success()).unwrap_or(false)
+                    && match (&expect, std::fs::read(&chk).ok().and_then(|x| serde_json::from_slice::<Table>(&x).ok())) {
+                        (Some((params, loc, dr)), Some(t)) => t == prayer_times_dt_rng(params, *loc, dr),
+                        _ => false,
+                    };
+                if ok { "fresh" } else { "other" }
+            }
+        };
+        w.emit(json!({"ev": "cli", "out_state": out_state, "params_state": params_state,
+            "sc": {"lat": lat_c, "lon": lon_c, "gmt": gmt_c, "elev": elev_c, "dates": dates_c,
+                "input": input_c, "o": has_o, "p": has_p, "pre": pre},
             "v": {"lat": lat.v, "lon": lon.v, "gmt": gmt.v, "elev": elev.v},
             "pred": pred, "ndays": ndays, "exit": exit, "files": files, "printed": !stdout.trim().is_empty(), "eq_lib": eq_lib,
             "argv": argv, "meth": meth}));
